@@ -2,6 +2,7 @@ package tl
 
 import (
 	"context"
+	"errors"
 	"fmt"
 	"runtime"
 	"strconv"
@@ -664,6 +665,8 @@ func (en *Engine) BackToBack(n, q, variant, idx int) {
 
 // ---------------------------------------------------------------- C07: PushTask after cancel onto a lane with free capacity
 
+var errAppCause = errors.New("application-cause")
+
 // PushAfterCancelRoom: the context ends (gate cancel, a wrapped context.WithCancel, or a wrapped
 // context.WithDeadline that has already expired), then PushTask onto lanes whose buffers have room:
 // each call must return exactly the context's error and PendingTask must not grow.
@@ -675,6 +678,7 @@ func (en *Engine) PushAfterCancelRoom(n, q, variant int) {
 	}
 	r := en.New(fam, name, n, q)
 	defer en.Finish(fam, r)
+	expiredAtNew := false
 	switch variant {
 	case 1:
 		c, cancel := context.WithCancel(context.Background())
@@ -682,11 +686,43 @@ func (en *Engine) PushAfterCancelRoom(n, q, variant int) {
 	case 2:
 		c, cancel := context.WithDeadline(context.Background(), time.Now().Add(-time.Second))
 		r.G = NewGateWrapping(en.ST, c, cancel)
+		expiredAtNew = true
+	case 3:
+		// cancelled WITH A CAUSE: Err() is still context.Canceled, and that is what PushTask must return
+		c, cancel := context.WithCancelCause(context.Background())
+		r.G = NewGateWrapping(en.ST, c, func() { cancel(errAppCause) })
+	case 4:
+		// expired deadline with a cause: Err() is context.DeadlineExceeded
+		c, cancel := context.WithDeadlineCause(context.Background(), time.Now().Add(-time.Second), errAppCause)
+		r.G = NewGateWrapping(en.ST, c, cancel)
+		expiredAtNew = true
+	case 5:
+		// a child of a context cancelled with a cause (e.g. the context of an errgroup)
+		p, cancel := context.WithCancelCause(context.Background())
+		c, cancel2 := context.WithCancel(p)
+		r.G = NewGateWrapping(en.ST, c, func() { cancel(errAppCause); cancel2() })
+	case 6:
+		// a hand-written context whose Value() reaches a live standard ancestor
+		g, stop := NewGateWithLiveAncestor(en.ST)
+		defer stop()
+		r.G = g
+	case 7:
+		// a timeout with a cause that expires by its own timer while the lane is running
+		c, cancel := context.WithTimeoutCause(context.Background(), 300*time.Microsecond, errAppCause)
+		r.G = NewGateWrapping(en.ST, c, cancel)
+		r.rec("Xb")
+		r.Start(longTimeout)
+		<-c.Done()
+		r.rec("Xe")
+	}
+	if expiredAtNew {
 		r.rec("Xb") // expired before the lane exists
 		r.rec("Xe")
 	}
-	r.Start(longTimeout)
-	if variant != 2 {
+	if variant != 7 {
+		r.Start(longTimeout)
+	}
+	if !expiredAtNew && variant != 7 {
 		if en.Rng.Bool() {
 			// some work first, so that the queue goroutines are back at their receive
 			t := r.NewTask(false, 0, false)
@@ -702,7 +738,7 @@ func (en *Engine) PushAfterCancelRoom(n, q, variant int) {
 			t := r.NewTask(false, 0, false)
 			res := r.Push(t, l)
 			if res != "ctx" {
-				r.Violation("push-after-cancel: PushTask onto lane %d (free capacity %d of %d) after the context ended (%v) returned %s", l, q-j, q, r.G.ErrNow(), res)
+				r.Violation("push-after-cancel: PushTask onto lane %d (free capacity %d of %d) after the context ended returned %s; it must return exactly the context's Err() = %v (context variant %d)", l, q-j, q, res, r.G.ErrNow(), variant)
 			}
 		}
 	}
@@ -771,6 +807,25 @@ func (en *Engine) PanicSequence(n, q int) {
 		want := t.pv
 		if !WaitUntil(LiveBound, func() bool { _, lp := r.Status(); return lp == want || (n > 1 && lp > 0) }) {
 			r.Violation("lastpanic: after task %d panicked with value %d (kind %d) LastPanic never showed it", t.ID, want, kind)
+		}
+	}
+	// the SAME uncomparable value raised twice in a row on one worker (the lane must not compare panic values)
+	for _, kind := range []int{PVSlice, PVMap, PVStructSlice} {
+		first := r.NewPanicTask(kind, false)
+		for _, t := range []*Task{first, r.NewSamePanicTask(first)} {
+			WaitUntil(100*time.Millisecond, func() bool { return workersBlockedInSelect() == n })
+			if res := r.Push(t, lane); res != "ok" {
+				r.Violation("progress: push returned %s", res)
+			}
+			if !WaitUntil(LiveBound, func() bool { return r.Finished(t) }) {
+				r.Violation("panic-contained: task %d (panic value kind %d, the same value as the previous panic) was not started within %v", t.ID, kind, LiveBound)
+				en.Shutdown(r, false)
+				return
+			}
+		}
+		want := first.pv
+		if !WaitUntil(LiveBound, func() bool { _, lp := r.Status(); return lp == want || (n > 1 && lp > 0) }) {
+			r.Violation("lastpanic: the same uncomparable value (kind %d) was raised twice, LastPanic never showed it", kind)
 		}
 	}
 	normal := r.NewTask(false, 0, false)
@@ -1129,4 +1184,137 @@ func (en *Engine) Reentrant(n, q int) {
 		r.Violation("pending-exact: lane at rest, PendingTask=%d want 0", last)
 	}
 	en.Shutdown(r, false)
+}
+
+// ---------------------------------------------------------------- C14: wide lanes
+
+// Wide: laneSize beyond a machine word (72, 130), queueSize 1, every worker pinned, one task held by the dispatcher
+// of the given queues: PendingTask must be exactly the number of held tasks at rest, then grow by one per buffered
+// task. Monitors only (the history is tagged M).
+func (en *Engine) Wide(n int, held []int) {
+	const fam = "wide"
+	name := sname(fam, n, held)
+	if en.Skip(fam, name) {
+		return
+	}
+	r := en.New(fam, name, n, 1)
+	defer en.Finish(fam, r)
+	r.Start(longTimeout)
+	if _, ok := en.PinAll(r, func(i int) int { return i }); !ok {
+		en.Shutdown(r, false)
+		return
+	}
+	if last, ok := r.PendingSettles(0, LiveBound); !ok {
+		r.Violation("pending-exact: %d workers pinned, nothing else accepted, PendingTask=%d want 0", n, last)
+	}
+	for i, l := range held {
+		if res := r.Push(r.NewTask(false, 0, false), l); res != "ok" {
+			r.Violation("progress: push into empty lane %d of %d returned %s", l, n, res)
+		}
+		if last, ok := r.PendingSettles(i+1, LiveBound); !ok {
+			r.Violation("pending-exact: laneSize %d, every worker pinned, %d accepted tasks held by the queue goroutines of lanes %v: PendingTask=%d want %d", n, i+1, held[:i+1], last, i+1)
+			break
+		}
+	}
+	if len(r.viols) == 0 {
+		// one more per lane into the buffer
+		for i, l := range held {
+			r.Push(r.NewTask(false, 0, false), l)
+			if last, ok := r.PendingSettles(len(held)+i+1, LiveBound); !ok {
+				r.Violation("pending-exact: laneSize %d, lane %d holds one task and buffers one: PendingTask=%d want %d", n, l, last, len(held)+i+1)
+				break
+			}
+		}
+	}
+	en.Shutdown(r, false)
+}
+
+// ---------------------------------------------------------------- C06: the caller drops its handle
+
+// DropHandle: fire-and-forget use. Every worker pinned, the lanes filled, then the harness forgets the *TaskLane
+// (no reference left anywhere), forces two garbage collections, and only then lets the workers go on: the context
+// is live, so every accepted task must still be started. The run ends through the context (no handle, no Wait()).
+func (en *Engine) DropHandle(n, q int) {
+	const fam = "drophandle"
+	name := sname(fam, n, q)
+	if en.Skip(fam, name) {
+		return
+	}
+	r := en.New(fam, name, n, q)
+	defer en.Finish(fam, r)
+	r.Start(longTimeout)
+	pins, ok := en.PinAll(r, func(i int) int { return i % n })
+	for l := 0; l < n && ok; l++ {
+		for j := 0; j <= q; j++ {
+			if res := r.Push(r.NewTask(false, 0, false), l); res != "ok" {
+				r.Violation("progress: push into lane %d with room returned %s", l, res)
+				ok = false
+			}
+		}
+	}
+	if ok {
+		r.PendingSettles(n*(q+1), LiveBound)
+	}
+	r.AwaitCalls(LiveBound)
+	r.L = nil // the last reference
+	for i := 0; i < 2; i++ {
+		runtime.GC()
+		time.Sleep(2 * time.Millisecond) // finalizers run on their own goroutine
+	}
+	for _, t := range pins {
+		t.Release()
+	}
+	if ok && !WaitUntil(LiveBound, func() bool {
+		r.mu.Lock()
+		defer r.mu.Unlock()
+		for _, c := range r.calls {
+			if c.Res == "ok" && r.nF[c.T.ID] == 0 {
+				return false
+			}
+		}
+		return true
+	}) {
+		r.Violation("progress: context live, handle dropped and garbage collected: %d of %d accepted tasks were started within %v", r.StartedCount(), n+n*(q+1), LiveBound)
+	}
+	r.Cancel(en.ctxErr())
+	r.G.Open()
+	r.ReleaseAll()
+	z := 0
+	WaitUntil(LiveBound, func() bool { z = LaneGoroutines(); return z == 0 })
+	r.rec("Z:" + strconv.Itoa(z))
+	if z != 0 {
+		r.stuck.Store(true)
+	}
+}
+
+// ---------------------------------------------------------------- C06: volume
+
+// Volume: `total` instant tasks through few workers on a live context (unrecorded: only counted). Every accepted
+// task must be started - also the ones that arrive after a worker goroutine has handled a great many.
+func (en *Engine) Volume(n, q, total int) {
+	const fam = "volume"
+	name := sname(fam, n, q, total)
+	if en.Skip(fam, name) {
+		return
+	}
+	r := en.New(fam, name, n, q)
+	r.Record = false
+	defer en.Finish(fam, r)
+	r.Start(longTimeout)
+	t := &Task{ID: 1, r: r, pv: -1} // one instant task object pushed again and again
+	accepted := 0
+	deadline := time.Now().Add(60 * time.Second)
+	for i := 0; i < total && time.Now().Before(deadline); i++ {
+		if err := r.L.PushTask(t, i%n); err == nil {
+			accepted++
+		}
+	}
+	if !WaitUntil(LiveBound, func() bool { return int(r.rawStarts.Load()) >= accepted }) || int(r.rawStarts.Load()) != accepted {
+		r.Violation("progress/exactly-once: %d tasks accepted on a live context (laneSize %d), %d Start() calls after %v", accepted, n, r.rawStarts.Load(), LiveBound)
+	}
+	en.E.Count("volume_tasks", accepted)
+	r.G.Cancel(en.ctxErr())
+	if !r.Wait(LiveBound) {
+		r.Violation("wait-did-not-return within %v", LiveBound)
+	}
 }
